@@ -37,6 +37,9 @@ static void fresh(void)
   if (D) gd_discard(D);
   snprintf(cmd, sizeof cmd, "rm -rf '%s' && mkdir -p '%s' && printf '/ENCODING none\\n/INCLUDE sub\\n' > '%s/format' && printf '/ENCODING none\\n' > '%s/sub'", dir, dir, dir, dir);
   if (system(cmd)) { fprintf(stderr, "setup failed\n"); exit(3); }
+  /* fragments for the gd_include operations (names that do not collide with the generator's) */
+  snprintf(cmd, sizeof cmd, "printf '/ENCODING none\\ni_r RAW UINT8 1\\ni_c CONST UINT8 3\\ni_c/m CONST UINT8 4\\ni_s STRING v\\n/ALIAS i_al i_c\\n/ALIAS i_c/ma i_r\\ni_l LINCOM i_r 1 0\\n' > '%s/inc1' && printf '/ENCODING none\\nj_c CONST UINT8 5\\nj_c/k CARRAY UINT8 1 2\\n/ALIAS j_al j_c/k\\nj_b BIT j_c 0 1\\n' > '%s/inc2'", dir, dir);
+  if (system(cmd)) { fprintf(stderr, "setup failed\n"); exit(3); }
   D = gd_open(dir, GD_RDWR);
   if (gd_error(D) || D->n_fragment != 2) { fprintf(stderr, "open failed %d\n", gd_error(D)); exit(3); }
 }
@@ -107,7 +110,14 @@ static void dump(void)
   unsigned u; int i, s, f;
   int sorted = 1;
   /* reference */
-  printf("ref %s fref %s %s\n", pname(D->reference_field), show(D->fragment[0].ref_name), show(D->fragment[1].ref_name));
+  printf("ref %s fref %s %s\n", pname(D->reference_field), show(D->fragment[0].ref_name),
+      D->n_fragment > 1 ? show(D->fragment[1].ref_name) : "-");
+  if (D->n_fragment != 2) {
+    /* after gd_include / gd_uninclude: every fragment's /REFERENCE */
+    printf("frefs");
+    for (i = 0; i < D->n_fragment; ++i) printf(" %s", show(D->fragment[i].ref_name));
+    printf("\n");
+  }
   for (u = 0; u < D->n_entries; ++u) {
     const gd_entry_t *E = D->entry[u];
     if (E->e->len != strlen(E->field)) sorted = 0;
@@ -331,6 +341,17 @@ int main(int argc, char **argv)
         }
         break;
       }
+      case 'U': printf("> r %d\n", gd_uninclude(D, atoi(t[1]), 0)); break;
+      case 'I': printf("> r %d\n", gd_include(D, tok(t[1]), atoi(t[2]), 0)); break;
+      case 'J': printf("> r %d\n", gd_include_affix(D, tok(t[1]), atoi(t[2]), tok(t[3]), tok(t[4]), 0)); break;
+      case 'S': { /* gd_alter_spec / gd_malter_spec: "<name> CONST INT64 <v>" */
+        char sp[4096];
+        const char *parent = optok(t[1]);
+        snprintf(sp, sizeof sp, "%s CONST INT64 %s", tok(t[2]), t[3]);
+        printf("> r %d\n", parent ? gd_malter_spec(D, sp, parent, 0) : gd_alter_spec(D, sp, 0));
+        break;
+      }
+      case 'N': { const char *r = gd_fragment_namespace(D, atoi(t[1]), tok(t[2])); printf("> r %d\n", r ? 0 : gd_error(D)); break; }
       case 'F': { /* lookup with de-aliasing (not a model operation; used by the check's lookup witness) */
         gd_entry_t *E = _GD_FindField(D, tok(t[1]), strlen(tok(t[1])), D->entry, D->n_entries, 1, NULL);
         printf("> f %s\n", E ? show(E->field) : "-");
